@@ -4,7 +4,9 @@ import (
 	"encoding/json"
 	"fmt"
 	"github.com/Trendyol/go-dcp/config"
+	"github.com/Trendyol/go-dcp/couchbase"
 	"github.com/couchbase/gocbcore/v10"
+	"strings"
 	"time"
 
 	dcp "github.com/Trendyol/go-dcp"
@@ -42,6 +44,7 @@ func init() {
 			for i := 0; i < parts; i++ {
 				out = append(out, Instance{Scenario: "c18_gates", Params: mustJSON(GateParams{Tier: tier, Part: i, Of: parts}), Bound: 0})
 			}
+			out = append(out, Instance{Scenario: "c18_restversion", Params: mustJSON(struct{}{}), Bound: 0, Note: "the version the client works with = what the parser makes of the string the cluster reports (19 renderings, well-formed and not)"})
 			out = append(out, Instance{Scenario: "c18_serialclose", Params: mustJSON(struct{}{}), Bound: 0, Shards: 2, Note: "the serial-close gate observed at the wire through lifecycles (a re-opened vBucket) and configurations (slow answers, short connection time-out)"})
 			out = append(out, Instance{Scenario: "c18_connectfault", Params: mustJSON(struct{}{}), Bound: 0, Shards: 2, Note: "the first DCP connect fails: no session with features other than those the version gates"})
 			return out
@@ -249,6 +252,60 @@ func init() {
 			if !serial && slow && !overlap {
 				vrt.Failf("%s: the close-stream requests were sent one at a time on a server at or above 5.5.0", desc)
 			}
+		}}
+	}
+}
+
+// c18_restversion: "version strings parse to the tuple they denote" on the path a session actually uses: the
+// REST answer of the cluster -> GetVersion() -> the version the client works with. For every rendering the
+// client's version is what the parser makes of the reported string - a string the parser rejects fails the
+// construction.
+func init() {
+	scenarios["c18_restversion"] = func(raw json.RawMessage) *vrt.Scenario {
+		return &vrt.Scenario{Name: "c18_restversion", FreeChoices: true, NoTimerAlt: true, MaxSteps: 2_000_000, Main: func() {
+			strs := []string{
+				"7.2.0-5325-enterprise", "7.2.0-5325-community", "6.5.0-4960-enterprise", "5.0.1-5003-enterprise", "7.6.2-3721-rel-enterprise",
+				"7.2.0-5325", "6.5.0-1", "7.2.0", "6.5", "7",
+				"6.5-4960", "6.5-4960-enterprise", "7.2-x-enterprise", "7.2.0-", "-5325-enterprise", "7.2.0-53a5-enterprise", "v7.2.0-5325-enterprise", "", "7..0-1-enterprise",
+			}
+			s := strs[vrt.Choose(len(strs), true, "reported-version-string")]
+			resetGlobals()
+			want, perr := couchbase.VerifParseVersion(s)
+			o := DcpOpts{ServerVersion: s}
+			o.Vbs = 1
+			o.CheckpointType = "manual"
+			c := NewCluster(&o.EnvOpts)
+			if s == "" {
+				o.ServerVersion = "<empty>" // (the harness default would replace an empty string; the loopback server reports "")
+			}
+			vrt.SetOutcome(fmt.Sprintf("%q parser: %v %v", s, want, perr))
+			e := NewDcpEnv(c, o)
+			if perr != nil {
+				if e.Err == nil {
+					vrt.Failf("the cluster reports the version %q, which the parser rejects (%v); the client was constructed with version %+v", s, perr, e.D.GetVersion())
+				}
+				return
+			}
+			if e.Err != nil {
+				vrt.Failf("the cluster reports the well-formed version %q (= %+v): construction failed: %v", s, *want, e.Err)
+				return
+			}
+			if got := e.D.GetVersion(); got == nil || *got != *want {
+				vrt.Failf("the cluster reports the version %q = %+v; the client works with %+v", s, *want, got)
+			}
+		}, Classify: func(r *vrt.Result) []string {
+			if r.Status == vrt.StatusCrash && strings.Contains(r.Outcome, "parser: <nil>") {
+				r.Failures = nil
+				return nil // a rejected string terminated the construction
+			}
+			if r.Status != vrt.StatusOK {
+				m := "execution ended with status " + r.Status.String()
+				if r.Crash != nil {
+					m += ": " + r.Crash.Value
+				}
+				return []string{m}
+			}
+			return nil
 		}}
 	}
 }
